@@ -577,9 +577,16 @@ func Diff(a, b *Node, path string) string {
 	return d
 }
 
+// StrictNil makes DiffClass tell a nil slice/map (Tag "nil" in reflective dumps) from an empty non-nil one.
+// Set by scenarios whose property says that structure does not change (single-goroutine scenarios only).
+var StrictNil bool
+
 // DiffClass is Diff that also returns a "class path" of the first difference:
 // struct field names kept, data keys replaced by {} and indices by [].
 func DiffClass(a, b *Node, path, cpath string) (string, string) {
+	if StrictNil && a != nil && b != nil && a.Kind == b.Kind && (a.Kind == KSeq || a.Kind == KMap) && (a.Tag == "nil") != (b.Tag == "nil") {
+		return fmt.Sprintf("%s: nil container vs empty non-nil container (%q vs %q)", path, a.Tag, b.Tag), cpath + " nil-vs-empty"
+	}
 	if a == nil || b == nil {
 		if a == b {
 			return "", ""
